@@ -903,7 +903,7 @@ func (s *Script) appendValue(buf []byte, v any, prec byte) []byte {
 	case Expr:
 		buf = tv.Append(buf)
 	case *regexp.Regexp:
-		buf = AppendString(buf, tv.String(), '/')
+		buf = AppendString(buf, escapeSlash(tv.String()), '/')
 	case *precBuf:
 		if prec < tv.prec {
 			buf = append(buf, '(')
